@@ -409,6 +409,15 @@ def k3b(ctx, fx, A):
     ctx.floor("C04.K3", "writes of the presented sequence", n, 4)
 
 
+def _kb_payload_map(f, node):
+    """a local map that is later moved, whole, into the holder's key_binding_jwt_payload (`HashMap::from([..])` / built then assigned)"""
+    import c07
+    try:
+        return c07._is_map_of(f, node, "key_binding_jwt_payload")
+    except Exception:
+        return False
+
+
 def k4(ctx, fx, A):
     """names read by the verifier from the KB-JWT ⊆ names written by the holder's KB builder; same digest function and roots"""
     read = set()
@@ -428,7 +437,7 @@ def k4(ctx, fx, A):
         fv = vals(f)
         for b2, t2 in f.calls():
             n2 = fv.call_node(b2)
-            if t2.get("name") == "insert" and len(n2.kids) > 2 and is_field(peel(n2.kids[0]), "key_binding_jwt_payload"):
+            if t2.get("name") == "insert" and len(n2.kids) > 2 and (is_field(peel(n2.kids[0]), "key_binding_jwt_payload") or _kb_payload_map(f, n2.kids[0])):
                 cv = const_value(n2.kids[1])
                 if isinstance(cv, str):
                     written.add(cv)
